@@ -203,3 +203,40 @@ func VerifC01Split() {
 	vapi.Assert(len(got) == l && vapi.BytesEq(got, in), "C01: the frames of one write carry consecutive chunks of the buffer: reassembly gives exactly the bytes written")
 	vapi.Reach("split-end")
 }
+
+// VerifC11Flood: a connection that delivers many undecodable messages (through the real deplex loop) keeps being
+// read: a valid frame arriving after them on the same connection is processed, the session stays open.
+func VerifC11Flood() {
+	vapi.RandZero(true)
+	vapi.Adversary(true) // nobody but the key holders can produce a message that authenticates
+	method := byte(1 + vapi.Pick("method", 3))
+	var key [32]byte // concrete key: the junk is then decoded (and refused) by the real primitives
+	for i := range key {
+		key[i] = byte(11*i + 5)
+	}
+	o, _ := MakeObfuscator(method, key)
+	sesh := MakeSession(1, SessionConfig{Obfuscator: o, MsgOnWireSizeLimit: 14 + 255 + 8 + 16})
+	a, b := vconn.Pipe(true)
+	sesh.AddConnection(a)
+	n := vapi.Param("junk", 12)
+	for i := 0; i < n; i++ {
+		// undecodable: wrong key (concrete junk of varying length, the ciphers run natively)
+		j := make([]byte, 14+3+16+i%5) // never the length of the valid frame below (14+2+16)
+		for k := range j {
+			j[k] = byte(31*k + 7*i + 3)
+		}
+		b.Write(j)
+	}
+	payload := vapi.Bytes("payload", 2)
+	b.Write(refEncode(method, key, 1, 0, 0, payload, nil, nil))
+	vapi.Quiesce()
+	vapi.Assert(!sesh.IsClosed() && !a.Closed, "C11: undecodable messages neither close the session nor the connection")
+	vapi.Assert(len(sesh.acceptCh) == 1, "C11: a valid frame after any number of undecodable messages is still processed")
+	if len(sesh.acceptCh) == 1 {
+		st, _ := sesh.Accept()
+		rb := make([]byte, 4)
+		r, rerr := st.Read(rb)
+		vapi.Assert(rerr == nil && r == 2 && rb[0] == payload[0] && rb[1] == payload[1], "C11: the valid frame's payload is delivered")
+	}
+	vapi.Reach("flood-end")
+}
